@@ -26,7 +26,7 @@ SPEC_MODULES = {
     "C05": ["specs.c04_scope"],
     "C04": ["specs.c04_scope"],
     "C06": ["specs.c04_scope"],
-    "C08": ["specs.c08_checkpoints"],
+    "C08": ["specs.c08_checkpoints", "specs.c19_iter"],
     "C09": ["specs.c09_lock", "specs.c10_adapters"],
     "C10": ["specs.c10_semaphore", "specs.c10_limiter", "specs.c10_adapters"],
     "C11": ["specs.c11_condition"],
